@@ -361,9 +361,6 @@ theorem depthsFrom_shift (w : Str) : ∀ d e, depthAfter d w = some e →
       · simp only [depthAfter, h1, h2, if_false] at h
         simp only [depthsFrom, h1, h2, if_false, List.map_cons, ih d e h]
 
-/-- the depth sequence as a string of pairs: depth = nesting of `Protected` -/
-def asFlat (l : List (Char × Nat)) : Flat := l.map fun p => (Atom.ch p.1, List.replicate p.2 Markup.prot)
-
 theorem asFlat_append (a b : List (Char × Nat)) : asFlat (a ++ b) = asFlat a ++ asFlat b := by
   simp [asFlat]
 
